@@ -157,6 +157,31 @@ pub fn trace_lines_since(from: u64) -> Vec<String> {
     }
 }
 
+/// number of injected failures so far
+pub fn failed_injected() -> u64 {
+    STATE.lock().unwrap().as_ref().map(|s| s.failed_injected).unwrap_or(0)
+}
+
+/// operations that were let through their Begin and have not reported their End yet
+pub fn inflight() -> i64 {
+    STATE.lock().unwrap().as_ref().map(|s| s.inflight_all.max(s.inflight)).unwrap_or(0)
+}
+
+/// the labels `<file>:<Kind>:<site>` of the Begin events with index >= `from`, in the order the hook saw them
+/// (file: `meta ln bbn ht wal rollback dir`) — the step labels of the Lean pipeline model (`Api/PipelineTrace.lean`)
+pub fn labels_since(from: u64) -> Vec<String> {
+    let g = STATE.lock().unwrap();
+    match g.as_ref() {
+        Some(s) => s
+            .log
+            .iter()
+            .filter(|e| e.phase == Phase::Begin && e.idx >= from && !e.file.starts_with("ABORT"))
+            .map(|e| format!("{}:{:?}:{}", e.file.split(':').next().unwrap_or(""), e.kind, e.site))
+            .collect(),
+        None => vec![],
+    }
+}
+
 pub fn begins() -> u64 {
     STATE.lock().unwrap().as_ref().map(|s| s.begins).unwrap_or(0)
 }
